@@ -391,6 +391,23 @@ def case_unary_mapping(ctx, cls, n, m, edgemask, offset):
             atoms = {}
             for (x, y) in E:
                 atoms[(x, y)] = f(x, y)
+            # what the group hands out belongs to the caller, who may well edit it (negate a table of literals, sort,
+            # clear, merge another mapping's table into it) before asking for the constraints
+            if (len(E) + r + offset) % 2 == 0:
+                for getter in (lambda: f.to_dict(), lambda: f(None, None), lambda: f(1, None), lambda: f(None, 1), lambda: f.indices()):
+                    try:
+                        got_ = getter()
+                    except Exception:       # noqa: BLE001
+                        continue
+                    if isinstance(got_, dict):
+                        for k_ in list(got_):
+                            got_[k_] = -got_[k_] if isinstance(got_[k_], int) else None
+                        got_[("x", "y")] = 99
+                        ctx.count("handed_out_containers_edited")
+                    elif isinstance(got_, list):
+                        got_.reverse()
+                        got_.append(-1)
+                        ctx.count("handed_out_containers_edited")
             ok = True
             for c in conds:
                 if not call_builder(ctx, "force_%s_mapping[unary,%s]" % (c, cls), F,
